@@ -319,3 +319,11 @@ def stub_environment():
 def sbool(x):
     """Force a (symbolic) truth value to a Python bool at a point where forking is intended."""
     return True if x else False
+
+
+def untraced(fn, *a, **k):
+    """Run a purely concrete computation outside CrossHair's tracer (speed only)."""
+    if NATIVE:
+        return fn(*a, **k)
+    with NoTracing():
+        return fn(*a, **k)
